@@ -19,7 +19,7 @@ theorem runMStmts_again {C : Codecs} {T F : String → Prop} (hF : LawfulFmt C F
     (andx : Bool) (stmts : List MStmt) :
     ∀ (m : List Slot) (s s' t : MState) (fs : List String),
       layoutM stmts = some m → stableM stmts = true → reencodableM stmts = true →
-      (∀ ty ∈ fmtTypesM stmts, F ty) →
+      (∀ ty ∈ fmtTypesM stmts, F ty) → (∀ g ∈ lenFieldsM stmts, g ∈ fs) →
       runMStmts C andx s stmts = .ok s' →
       (∀ sl ∈ m, SlotFit C T s'.env sl) → (∀ sl ∈ m, sl.field ∈ fs) →
       Agree fs t.env s'.env →
@@ -28,11 +28,11 @@ theorem runMStmts_again {C : Codecs} {T F : String → Prop} (hF : LawfulFmt C F
         t'.D = t.D ++ layoutBytes C s'.env (m.filter (·.blk == .D)) ∧ t'.head = t.head := by
   induction stmts with
   | nil =>
-    intro m s s' t fs hl _ _ _ _ _ _ hag
+    intro m s s' t fs hl _ _ _ _ _ _ _ hag
     simp only [layoutM, Option.some.injEq] at hl; subst hl
     exact ⟨t, by rw [runMStmts], hag, by simp [layoutBytes_nil], by simp [layoutBytes_nil], rfl⟩
   | cons st r ih =>
-    intro m s s' t fs hl hst hre hFt hrun hfit hmem hag
+    intro m s s' t fs hl hst hre hFt hlen hrun hfit hmem hag
     obtain ⟨hfrag, m', hl', hm⟩ := layoutM_cons hl
     rw [runMStmts] at hrun
     cases h1 : runMStmt C andx s st <;> simp [h1] at hrun
@@ -42,11 +42,12 @@ theorem runMStmts_again {C : Codecs} {T F : String → Prop} (hF : LawfulFmt C F
     case int b w e f =>
       have hre' : reencodableM r = true := by simpa [reencodableM] using hre
       have hFt' : ∀ ty ∈ fmtTypesM r, F ty := by simpa [fmtTypesM] using hFt
+      have hlen' : ∀ g ∈ lenFieldsM r, g ∈ fs := by simpa [lenFieldsM] using hlen
       obtain ⟨x, hx, _⟩ := hfit (.int b w e f) (List.mem_cons_self ..)
       have htx : t.env.get f = some (.n x) := by rw [hag f (hmem (.int b w e f) (List.mem_cons_self ..)), hx]
       have ht1 : runMStmt C andx t (.int b w e f) = .ok (t.app b (intBytes w e x)) := by
         rw [runMStmt]; simp [getN, htx]
-      obtain ⟨t', hr, hag', hP, hD, hH⟩ := ih m' s1 s' (t.app b (intBytes w e x)) fs hl' hst.2 hre' hFt' hrun
+      obtain ⟨t', hr, hag', hP, hD, hH⟩ := ih m' s1 s' (t.app b (intBytes w e x)) fs hl' hst.2 hre' hFt' hlen' hrun
         (fun sl h => hfit sl (List.mem_cons_of_mem _ h)) (fun sl h => hmem sl (List.mem_cons_of_mem _ h))
         (by cases b <;> exact hag)
       obtain ⟨g1, g2⟩ := layout_step C s'.env b (.int b w e f) rfl m' t _ t' (intBytes w e x) rfl rfl hP hD
@@ -55,11 +56,12 @@ theorem runMStmts_again {C : Codecs} {T F : String → Prop} (hF : LawfulFmt C F
     case quad b w e f =>
       have hre' : reencodableM r = true := by simpa [reencodableM] using hre
       have hFt' : ∀ ty ∈ fmtTypesM r, F ty := by simpa [fmtTypesM] using hFt
+      have hlen' : ∀ g ∈ lenFieldsM r, g ∈ fs := by simpa [lenFieldsM] using hlen
       obtain ⟨x, hx, _⟩ := hfit (.int b w e f) (List.mem_cons_self ..)
       have htx : t.env.get f = some (.n x) := by rw [hag f (hmem (.int b w e f) (List.mem_cons_self ..)), hx]
       have ht1 : runMStmt C andx t (.quad b w e f) = .ok (t.app b (intBytes w e x)) := by
         rw [runMStmt]; simp [getN, htx]
-      obtain ⟨t', hr, hag', hP, hD, hH⟩ := ih m' s1 s' (t.app b (intBytes w e x)) fs hl' hst.2 hre' hFt' hrun
+      obtain ⟨t', hr, hag', hP, hD, hH⟩ := ih m' s1 s' (t.app b (intBytes w e x)) fs hl' hst.2 hre' hFt' hlen' hrun
         (fun sl h => hfit sl (List.mem_cons_of_mem _ h)) (fun sl h => hmem sl (List.mem_cons_of_mem _ h))
         (by cases b <;> exact hag)
       obtain ⟨g1, g2⟩ := layout_step C s'.env b (.int b w e f) rfl m' t _ t' (intBytes w e x) rfl rfl hP hD
@@ -68,11 +70,12 @@ theorem runMStmts_again {C : Codecs} {T F : String → Prop} (hF : LawfulFmt C F
     case u8 b f =>
       have hre' : reencodableM r = true := by simpa [reencodableM] using hre
       have hFt' : ∀ ty ∈ fmtTypesM r, F ty := by simpa [fmtTypesM] using hFt
+      have hlen' : ∀ g ∈ lenFieldsM r, g ∈ fs := by simpa [lenFieldsM] using hlen
       obtain ⟨x, hx, _⟩ := hfit (.u8 b f) (List.mem_cons_self ..)
       have htx : t.env.get f = some (.n x) := by rw [hag f (hmem (.u8 b f) (List.mem_cons_self ..)), hx]
       have ht1 : runMStmt C andx t (.u8 b f) = .ok (t.app b [UInt8.ofNat x]) := by
         rw [runMStmt]; simp [getN, htx]
-      obtain ⟨t', hr, hag', hP, hD, hH⟩ := ih m' s1 s' (t.app b [UInt8.ofNat x]) fs hl' hst.2 hre' hFt' hrun
+      obtain ⟨t', hr, hag', hP, hD, hH⟩ := ih m' s1 s' (t.app b [UInt8.ofNat x]) fs hl' hst.2 hre' hFt' hlen' hrun
         (fun sl h => hfit sl (List.mem_cons_of_mem _ h)) (fun sl h => hmem sl (List.mem_cons_of_mem _ h))
         (by cases b <;> exact hag)
       obtain ⟨g1, g2⟩ := layout_step C s'.env b (.u8 b f) rfl m' t _ t' [UInt8.ofNat x] rfl rfl hP hD
@@ -81,11 +84,12 @@ theorem runMStmts_again {C : Codecs} {T F : String → Prop} (hF : LawfulFmt C F
     case bytes b f =>
       have hre' : reencodableM r = true := by simpa [reencodableM] using hre
       have hFt' : ∀ ty ∈ fmtTypesM r, F ty := by simpa [fmtTypesM] using hFt
+      have hlen' : ∀ g ∈ lenFieldsM r, g ∈ fs := by simpa [lenFieldsM] using hlen
       obtain ⟨bs, hx⟩ := hfit (.bytes b f none) (List.mem_cons_self ..)
       have htx : t.env.get f = some (.b bs) := by rw [hag f (hmem (.bytes b f none) (List.mem_cons_self ..)), hx]
       have ht1 : runMStmt C andx t (.bytes b f) = .ok (t.app b bs) := by
         rw [runMStmt]; simp [htx]
-      obtain ⟨t', hr, hag', hP, hD, hH⟩ := ih m' s1 s' (t.app b bs) fs hl' hst.2 hre' hFt' hrun
+      obtain ⟨t', hr, hag', hP, hD, hH⟩ := ih m' s1 s' (t.app b bs) fs hl' hst.2 hre' hFt' hlen' hrun
         (fun sl h => hfit sl (List.mem_cons_of_mem _ h)) (fun sl h => hmem sl (List.mem_cons_of_mem _ h))
         (by cases b <;> exact hag)
       obtain ⟨g1, g2⟩ := layout_step C s'.env b (.bytes b f none) rfl m' t _ t' bs rfl rfl hP hD
@@ -94,11 +98,12 @@ theorem runMStmts_again {C : Codecs} {T F : String → Prop} (hF : LawfulFmt C F
     case arr b f =>
       have hre' : reencodableM r = true := by simpa [reencodableM] using hre
       have hFt' : ∀ ty ∈ fmtTypesM r, F ty := by simpa [fmtTypesM] using hFt
+      have hlen' : ∀ g ∈ lenFieldsM r, g ∈ fs := by simpa [lenFieldsM] using hlen
       obtain ⟨bs, hx⟩ := hfit (.arr b f) (List.mem_cons_self ..)
       have htx : t.env.get f = some (.b bs) := by rw [hag f (hmem (.arr b f) (List.mem_cons_self ..)), hx]
       have ht1 : runMStmt C andx t (.arr b f) = .ok (t.app b bs) := by
         rw [runMStmt]; simp [htx]
-      obtain ⟨t', hr, hag', hP, hD, hH⟩ := ih m' s1 s' (t.app b bs) fs hl' hst.2 hre' hFt' hrun
+      obtain ⟨t', hr, hag', hP, hD, hH⟩ := ih m' s1 s' (t.app b bs) fs hl' hst.2 hre' hFt' hlen' hrun
         (fun sl h => hfit sl (List.mem_cons_of_mem _ h)) (fun sl h => hmem sl (List.mem_cons_of_mem _ h))
         (by cases b <;> exact hag)
       obtain ⟨g1, g2⟩ := layout_step C s'.env b (.arr b f) rfl m' t _ t' bs rfl rfl hP hD
@@ -107,12 +112,13 @@ theorem runMStmts_again {C : Codecs} {T F : String → Prop} (hF : LawfulFmt C F
     case sub b f ty =>
       have hre' : reencodableM r = true := by simpa [reencodableM] using hre
       have hFt' : ∀ ty ∈ fmtTypesM r, F ty := by simpa [fmtTypesM] using hFt
+      have hlen' : ∀ g ∈ lenFieldsM r, g ∈ fs := by simpa [lenFieldsM] using hlen
       obtain ⟨v, bs, hx, henc, _⟩ := hfit (.sub b f ty none) (List.mem_cons_self ..)
       have htx : t.env.get f = some (.t v) := by rw [hag f (hmem (.sub b f ty none) (List.mem_cons_self ..)), hx]
       have ht1 : runMStmt C andx t (.sub b f ty) = .ok { (t.app b bs) with env := t.env.set f (.t v) } := by
         rw [runMStmt]; simp [htx, henc]
       obtain ⟨t', hr, hag', hP, hD, hH⟩ := ih m' s1 s' { (t.app b bs) with env := t.env.set f (.t v) } fs hl' hst.2
-        hre' hFt' hrun
+        hre' hFt' hlen' hrun
         (fun sl h => hfit sl (List.mem_cons_of_mem _ h)) (fun sl h => hmem sl (List.mem_cons_of_mem _ h))
         (hag.set_same f (.t v) hx)
       obtain ⟨g1, g2⟩ := layout_step C s'.env b (.sub b f ty none) rfl m' t _ t' bs
@@ -130,6 +136,7 @@ theorem runMStmts_again {C : Codecs} {T F : String → Prop} (hF : LawfulFmt C F
         have hFty : F ty := hFt ty (by simp [fmtTypesM])
         have hFt' : ∀ ty ∈ fmtTypesM (.sub b f ty :: r'), F ty := by
           intro x hx; exact hFt x (by simp only [fmtTypesM, List.mem_append]; exact Or.inr hx)
+        have hlen' : ∀ g ∈ lenFieldsM (.sub b f ty :: r'), g ∈ fs := by simpa [lenFieldsM] using hlen
         -- first run: `SetBufferFormat`, then `Marshal`, then nothing touches the field
         rw [runMStmt] at h1
         split at h1 <;> try cases h1
@@ -159,16 +166,45 @@ theorem runMStmts_again {C : Codecs} {T F : String → Prop} (hF : LawfulFmt C F
         have ht1 : runMStmt C andx t (.setFmt f k) = .ok { t with env := t.env.set f (.t v'') } := by
           rw [runMStmt]; simp [htx, hfmt]
         obtain ⟨t', hr, hag', hP, hD, hH⟩ := ih m { s with env := s.env.set f (.t (C.setFmt k v0)) } s'
-          { t with env := t.env.set f (.t v'') } fs hl' hst.2 hre' hFt' hrun hfit hmem
+          { t with env := t.env.set f (.t v'') } fs hl' hst.2 hre' hFt' hlen' hrun hfit hmem
           (hag.set_same f (.t v'') (by rw [hfr, hs2]))
         exact ⟨t', by rw [runMStmts, ht1]; exact hr, hag', hP, hD, hH⟩
-    case assignLen f g w => simp [reencodableM] at hre
+    case assignLen f g w =>
+      simp only [reencodableM, Bool.and_eq_true, bne_iff_ne, ne_eq, List.all_eq_true] at hre
+      obtain ⟨⟨hfg, hnomod⟩, hre'⟩ := hre
+      have hFt' : ∀ ty ∈ fmtTypesM r, F ty := by simpa [fmtTypesM] using hFt
+      have hlen' : ∀ g ∈ lenFieldsM r, g ∈ fs := fun x hx => hlen x (by simp [lenFieldsM, hx])
+      have hf : f ∈ fs := hlen f (by simp [lenFieldsM])
+      have hg : g ∈ fs := hlen g (by simp [lenFieldsM])
+      have hnf : r.all (fun st => st.modifies != some f) = true := by
+        simp only [List.all_eq_true, bne_iff_ne, ne_eq]; exact fun st hs => (hnomod st hs).1
+      have hng : r.all (fun st => st.modifies != some g) = true := by
+        simp only [List.all_eq_true, bne_iff_ne, ne_eq]; exact fun st hs => (hnomod st hs).2
+      have hff := runMStmts_frame C andx r m s1 s' hl' hrun f hnf
+      have hfg' := runMStmts_frame C andx r m s1 s' hl' hrun g hng
+      -- what the first run computed: the length of the buffer `g` holds, which no later statement changes
+      have key : ∃ n, s.env.get g = s1.env.get g ∧ s1.env.get f = some (.n n) ∧
+          ∀ t0 : MState, t0.env.get g = s.env.get g →
+            runMStmt C andx t0 (.assignLen f g w) = .ok { t0 with env := t0.env.set f (.n n) } := by
+        rw [runMStmt] at h1
+        split at h1 <;> try cases h1
+        all_goals
+          rename_i xs hxs
+          refine ⟨xs.length % 256 ^ w, ?_, by simp [Env.get_set_self], ?_⟩
+          · simp [Env.get_set_ne _ _ _ _ (Ne.symm hfg)]
+          · intro t0 ht0; rw [runMStmt, ht0, hxs]
+      obtain ⟨n, hgs, hfs1, hstep⟩ := key
+      have htg : t.env.get g = s.env.get g := by rw [hag g hg, hfg', ← hgs]
+      have ht1 := hstep t htg
+      obtain ⟨t', hr, hag', hP, hD, hH⟩ := ih m s1 s' { t with env := t.env.set f (.n n) } fs hl' hst.2 hre' hFt'
+        hlen' hrun hfit hmem (hag.set_same f (.n n) (by rw [hff, hfs1]))
+      exact ⟨t', by rw [runMStmts, ht1]; exact hr, hag', hP, hD, hH⟩
 
 /-- a marshal program of the re-encodable shape that emits nothing is empty -/
 theorem layoutM_nil_reencodable : ∀ (stmts : List MStmt), layoutM stmts = some [] → reencodableM stmts = true →
-    stmts = []
-  | [], _, _ => rfl
-  | st :: r, hl, hre => by
+    lenFieldsM stmts = [] → stmts = []
+  | [], _, _, _ => rfl
+  | st :: r, hl, hre, hlen => by
     exfalso
     obtain ⟨hfrag, m', hl', hm⟩ := layoutM_cons hl
     cases hfrag <;> simp only [List.nil_append, List.cons_append] at hm <;> try cases hm
@@ -179,6 +215,6 @@ theorem layoutM_nil_reencodable : ∀ (stmts : List MStmt), layoutM stmts = some
         cases st2 <;> simp only [reencodableM, Bool.false_and, Bool.false_eq_true] at hre
         obtain ⟨_, m'', _, hm''⟩ := layoutM_cons hl'
         simp at hm''
-    · simp [reencodableM] at hre
+    · simp [lenFieldsM] at hlen
 
 end Manticore.SmbIR
